@@ -3,14 +3,17 @@
 # usage: confirm_seed.sh <Cxx> <a|b>     (worktree /tmp/wt/<Cxx>, deliverables /tmp/seed/<Cxx>/<a|b>)
 set -u
 ID=$1; V=$2
-WT=/tmp/wt/$ID; SD=/tmp/seed/$ID/$V; OUT=/verif/seeded/$ID-$V
+# optional: third argument = name under /verif/seeded (default <ID>-<V>); env SEEDROOT (/tmp/seed), WTDIR (/tmp/wt/<ID>)
+NAME=${3:-$ID-$V}
+SEEDROOT=${SEEDROOT:-/tmp/seed}
+WT=${WTDIR:-/tmp/wt/$ID}; SD=$SEEDROOT/$ID/$V; OUT=/verif/seeded/$NAME
 export CARGO_NET_OFFLINE=true RUST_BACKTRACE=0
 cd $WT && git checkout -q -- . && git apply $SD/patch.diff || { echo "$ID-$V: patch does not apply"; exit 1; }
 TESTS=$(cargo nextest run --workspace --no-fail-fast --offline 2>&1 | grep -E "Summary" | tail -1)
 DEMO=$SD/demo
 run_demo() {
-  : > /tmp/seed/$ID/$V/demo.$1.log
-  ( cd $DEMO && if [ -f run.sh ]; then timeout 900 sh run.sh >/tmp/seed/$ID/$V/demo.$1.log 2>&1; elif [ -d src/bin ] && ! [ -f src/main.rs ]; then rc=0; for b in src/bin/*.rs; do n=$(basename $b .rs); timeout 600 cargo run --offline --bin $n >>/tmp/seed/$ID/$V/demo.$1.log 2>&1 || rc=1; done; (exit $rc); elif grep -q '^\[\[test\]\]\|#\[test\]' -r src tests 2>/dev/null && ! [ -f src/main.rs ]; then timeout 600 cargo test --offline >/tmp/seed/$ID/$V/demo.$1.log 2>&1; else timeout 600 cargo run --offline >/tmp/seed/$ID/$V/demo.$1.log 2>&1; fi; echo $? )
+  : > $SD/demo.$1.log
+  ( cd $DEMO && if [ -f run.sh ]; then timeout 900 sh run.sh >$SD/demo.$1.log 2>&1; elif [ -d src/bin ] && ! [ -f src/main.rs ]; then rc=0; for b in src/bin/*.rs; do n=$(basename $b .rs); timeout 600 cargo run --offline --bin $n >>$SD/demo.$1.log 2>&1 || rc=1; done; (exit $rc); elif grep -q '^\[\[test\]\]\|#\[test\]' -r src tests 2>/dev/null && ! [ -f src/main.rs ]; then timeout 600 cargo test --offline >$SD/demo.$1.log 2>&1; else timeout 600 cargo run --offline >$SD/demo.$1.log 2>&1; fi; echo $? )
 }
 WITH=$(run_demo with)
 git -C $WT checkout -q -- .
@@ -19,10 +22,10 @@ rm -rf $DEMO/target
 echo "$ID-$V: tests=[$TESTS] demo_with_patch_exit=$WITH demo_without_patch_exit=$WITHOUT"
 if echo "$TESTS" | grep -q "80 passed" && [ "$WITH" != "0" ] && [ "$WITHOUT" = "0" ]; then
   mkdir -p $OUT && cp $SD/patch.diff $OUT/ && rm -rf $OUT/demo && cp -r $DEMO $OUT/demo && cp $SD/NOTES.md $OUT/NOTES.md
-  python3 - "$ID" "$V" "$TESTS" "$WITH" "$WITHOUT" <<'PY'
+  python3 - "$ID" "$V" "$TESTS" "$WITH" "$WITHOUT" "$NAME" <<'PY'
 import json,sys,os
-id,v,tests,w,wo=sys.argv[1:6]
-out='/verif/seeded/%s-%s'%(id,v)
+id,v,tests,w,wo,name=sys.argv[1:7]
+out='/verif/seeded/%s'%name
 notes=open(os.path.join(out,'NOTES.md')).read()
 meta={"property":id,"variant":v,"breaks":id,"needs_to_manifest":notes[:1500],
  "confirmed":{"worktree":"/tmp/wt/%s (scratch, removed afterwards)"%id,"suite_with_patch":tests.strip(),"demo_with_patch_exit":int(w),"demo_without_patch_exit":int(wo),
@@ -30,7 +33,7 @@ meta={"property":id,"variant":v,"breaks":id,"needs_to_manifest":notes[:1500],
  "detected_by":None}
 json.dump(meta,open(os.path.join(out,'meta.json'),'w'),indent=1)
 PY
-  echo "$ID-$V: CONFIRMED"
+  echo "$NAME: CONFIRMED"
 else
-  echo "$ID-$V: NOT CONFIRMED"
+  echo "$NAME: NOT CONFIRMED"
 fi
